@@ -466,6 +466,7 @@ impl Property for C08 {
             program: case.program.clone(),
             schedule: case.schedule.clone(),
             clock: case.clock.clone(),
+            real_state: case.real_state,
         };
         let mut out: Vec<Case> = crate::c01::shrink_case(&base)
             .into_iter()
